@@ -72,7 +72,7 @@ REQUIRE = {"requests_compared": 1500, "loop_requests_compared": 40, "header_valu
            "qargs_dropped_between_consecutive_requests": 400, "header_name_sets_compared": 5000,
            "two_piece_feeds_compared": 4000, "two_piece_cut_request-line-CR_LF": 16, "two_piece_cut_header-CR_LF": 60,
            "loop_two_write_requests_compared": 60, "queued_requests_compared": 600,
-           "queued_requests_inheriting_qargs_behind_a_path_query": 100}
+           "queued_requests_inheriting_qargs_behind_a_path_query": 100, "bodies_over_64KiB_recovered": 60}
 
 METHODS = ["GET", "HEAD", "PUT", "PATCH", "POST", "DELETE", "OPTIONS", "TRACE", "CONNECT"]
 
@@ -316,6 +316,61 @@ def gen_pathquery(rng):
     return pairs
 
 
+BIG_KINDS = ["bytes", "data", "fargs", "str", "multipart"]
+BIG_SIZES = [70000, 200000, 1000000]
+
+
+def gen_big(rng, idx, mode, tier="thorough"):
+    """spec whose body is far larger than the parser's 64 KiB LINE limit; the body is stored as [unit, repeat] and only
+    expanded inside run_case (replay files and evidence stay small)"""
+    kind = BIG_KINDS[idx % len(BIG_KINDS)]
+    sizes = BIG_SIZES if tier != "quick" else [70000, 200000, 70000, 200000, 70000, 200000, 70000, 1000000]
+    size = sizes[(idx // len(BIG_KINDS)) % len(sizes)]
+    spec = gen_spec(rng, "quick", mode, hint={"body": False})
+    m = rng.choice(METHODS[1:])
+    spec["method"] = rng.choice([m, m.lower()])
+    spec["kind"] = kind
+    spec["headers"] = [h for h in spec["headers"] if h[0].lower() not in ("content-type", "content-length")]
+    if kind == "bytes":
+        unit = gen_bytes(rng, 32).decode("latin-1") + "\r\n\x00\xff"
+    elif kind == "str":
+        unit = "".join(chr(rng.randrange(256)) for _ in range(rng.randint(9, 17)))
+    else:
+        unit = ustr(rng, 9, 17, exclude="&=\r\n") or "x"
+    spec["rep"] = [unit, max(1, size // len(unit))]
+    if kind == "multipart":
+        spec["headers"].append(["Content-Type", "multipart/form-data"])
+    if kind in ("bytes", "str") and rng.random() < 0.3:
+        spec["explicit_cl"] = True
+    return spec
+
+
+def materialize(case):
+    """expand a [unit, repeat] body into the spec fields the round trips and the oracle use"""
+    if "rep" not in case:
+        return case
+    unit, n = case["rep"]
+    blob = unit * n
+    spec = dict(case)
+    spec["_compact"] = case
+    kind = case["kind"]
+    if kind in ("bytes", "str"):
+        spec["body"] = blob
+        if case.get("explicit_cl"):
+            spec["headers"] = case["headers"] + [["Content-Length", str(len(blob.encode("latin-1")))]]
+    elif kind == "data":
+        spec["data"] = {"blob": blob, "n": n, "tail": [unit, None]}
+    elif kind == "fargs":
+        spec["fargs"] = [["blob", blob], ["k", unit]]
+    elif kind == "multipart":
+        spec["fargs"] = [["fblob", blob], ["fk", unit]]
+    return spec
+
+
+def compact(spec):
+    return spec.get("_compact", spec)
+
+
 def gen_qpath(rng):
     """path for the queue cases: as gen_path, without ';' and still with exactly one leading '/'"""
     p = "/" + gen_path(rng).replace(";", "").lstrip("/")
@@ -378,6 +433,15 @@ def cases(tier, seed, shard, nshards):
         yield gen_spec(rng, "quick", "direct-cuts")
     for _ in range((16 if tier == "quick" else 160) // nshards or 1):
         yield dict(gen_spec(rng, "quick", "loop-cuts"), rcuts=[rng.random() for _ in range(2)])
+    # bodies far beyond 64 KiB (a limit that applies to LINES, not to what is buffered behind the request line)
+    nbig = (40 if tier == "quick" else 400) // nshards
+    for j in range(nbig):
+        idx = shard * nbig + j
+        yield gen_big(rng, idx, "direct", tier)
+        if j % 5 == 0:
+            yield gen_big(rng, idx + 1, "direct-cuts", tier)
+        if j % 5 == 2:
+            yield gen_big(rng, idx + 2, "loop", tier)
     # several Client.request() calls queued before the first service round
     for _ in range((320 if tier == "quick" else 4800) // nshards):
         yield gen_queue(rng, tier)
@@ -441,6 +505,9 @@ def fail(ctx, spec, aspect, msg):
 def run_case(spec, ctx):
     if "seq" in spec:
         return run_sequence(spec, ctx)
+    spec = materialize(spec)
+    if "rep" in spec:
+        ctx.count("specs_with_body_over_64KiB")
     if spec["mode"] == "queue":
         return run_queue(spec, ctx)
     if spec["mode"] == "direct-cuts":
@@ -461,8 +528,8 @@ def run_case(spec, ctx):
     ok = compare(spec, got, ctx)
     path = spec["path"]
     if quote(path) != path or spec["qargs"] or spec["headers"] or spec["kind"] != "none":
-        ctx.nontrivial(spec)
-    if ok and (quote(path) != path) and spec["qargs"] and spec["kind"] != "none":
+        ctx.nontrivial(compact(spec))
+    if ok and (quote(path) != path) and spec["qargs"] and spec["kind"] != "none" and "rep" not in spec:
         ctx.sample({"spec": spec, "first_line": got["wire"][:200], "PATH_INFO": got["env"].get("PATH_INFO"),
                     "QUERY_STRING": got["env"].get("QUERY_STRING"), "body_len": len(got["body"])})
 
@@ -655,7 +722,13 @@ def run_direct_cuts(spec, ctx):
         return          # already reported with the plain keys
     msg = got["wire"]
     bad = set()
-    for c in range(1, len(msg)):
+    if "rep" in spec:       # a body beyond 64 KiB: the interesting cut positions only
+        i, h = msg.find(b"\r\n"), msg.find(b"\r\n\r\n") + 4
+        positions = sorted(x for x in {i + 1, msg.find(b"\r\n", i + 2) + 1, h - 1, h, h + 1, h + 65535, h + 65536, h + 65537,
+                                        65536, 65537, len(msg) // 2, len(msg) - 1} if 0 < x < len(msg))
+    else:
+        positions = range(1, len(msg))
+    for c in positions:
         cls = cut_class(msg, c)
         ctx.count("two_piece_feeds")
         ctx.count("two_piece_cut_" + cls.replace("|", "_"))
@@ -690,7 +763,7 @@ def run_direct_cuts(spec, ctx):
             report_split(ctx, spec, fails, cls, f"request cut after byte {c} of {len(msg)} ({msg[max(0, c - 12):c]!r} | {msg[c:c + 12]!r})")
         else:
             ctx.count("two_piece_feeds_compared")
-    ctx.nontrivial(spec)
+    ctx.nontrivial(compact(spec))
 
 
 def run_loop_cuts(spec, ctx):
@@ -761,7 +834,7 @@ def run_loop_cuts(spec, ctx):
                          f"({msg[max(0, c - 12):c]!r} | {msg[c:c + 12]!r})")
         else:
             ctx.count("loop_two_write_requests_compared")
-    ctx.nontrivial(spec)
+    ctx.nontrivial(compact(spec))
 
 
 def queue_expected(case):
@@ -1085,6 +1158,8 @@ def compare(spec, got, ctx):
             fail(ctx, spec, "form-differs", f"multipart fargs sent {want_f!r} recovered {fields!r} (CONTENT_TYPE={ct!r})")
             ok = False
     if ok:
+        if len(body) > 65536:
+            ctx.count("bodies_over_64KiB_recovered")
         ctx.count("requests_compared")
         if loop:
             ctx.count("loop_requests_compared")
